@@ -85,6 +85,12 @@ case("index-into-array-of-void", ["C01", "C02", "C26"],
 case("generic-index-at-void", ["C01", "C02", "C22"],
      "fn firstg(gx: T ToString, ga: array<T>) -> string {\n  \"<\" .. ga[0] .. \">\"\n}\nprintln(firstg(nil, [nil, nil]))\nprintln(firstg(5, [7, 8]))\nprintln(firstg(nil, [nil]))\n", ("out", "<nil>\n<7>\n<nil>\n"))
 
+case("if-without-else-branch-of-type-never-in-generic-call", ["C01", "C02", "C22"],
+     "let gf2: bool = false\nfn genv(gf: int -> T, gn: int, gx: T) -> array<T> {\n  println(gn)\n  [gf(0), gx]\n}\nlet xa = genv((p: int) -> { if gf2 { panic(\"boom\") } }, 8, nil)\nprintln(xa)\n", ("out", "8\n[ nil, nil ]\n"))
+# ---- open defect: a type variable instantiated at `never` next to a void argument ------------
+case("generic-never-with-void-argument", ["C01", "C02"],
+     "let gf2: bool = false\nfn genv(gf: int -> T, gn: int, gx: T) -> array<T> {\n  println(gn)\n  [gf(0), gx]\n}\nlet xa = genv((p: int) -> { if gf2 { panic(\"boom\") } else { panic(\"bam\") } }, 8, nil)\n", ("err", "panic", "bam", "8\n"))
+
 # ---- open defect zone: break/continue out of an operand position -------------------------
 case("jump-from-operand-for-continue", ["C01", "C02"],
      "var acc = 0\nfor i in 4 {\n  acc = acc + { if i == 2 { continue }; i }\n}\nprintln(acc)\n", ("out", "4\n"))
